@@ -48,7 +48,7 @@ func c04Main(c *core.Ctx) {
 	N, P, B := sh[0], sh[1], sh[2]
 	wc := 0
 	if needsWidthClass(model) {
-		wc = 1 + c.R.Intn(13)
+		wc = widthClassFor(c.R, N)
 	}
 	run := GenRun(model, c.R, N, P, B, T, wc)
 	if pad == 1 {
@@ -234,7 +234,7 @@ func c04CBacked(c *core.Ctx) {
 	T := c04Ts[c.R.Intn(len(c04Ts))]
 	wc := 0
 	if needsWidthClass(model) {
-		wc = 1 + c.R.Intn(13)
+		wc = widthClassFor(c.R, N)
 	}
 	run := GenRun(model, c.R, N, P, B, T, wc)
 	if c.R.Bool(0.5) {
